@@ -101,6 +101,46 @@ def random_dfas(n, seed):
     return cases
 
 
+MERGED_POOL = ["s", "a", "b", "a;b", "a;b#1", "a;b#2", "b;a", "a;b;a"]      # spellings the library itself produces
+TWIN_POOL = ["s", "a", "b", "a;b", "a;b#1", "a;b#2", "a;b#3", "a;b#4", "a;b#5", "a;b#6", "b;a", "a;b;a"]
+
+
+def twin_dfas(n, seed):
+    """Random DFAs with 5-7 states in which q1 and q2 are twins (same successors, same marking), so that minimize() has to
+    name the class {a, b}, while other states are already spelled like that name and like the suffixed names the library
+    hands out on a collision ("a;b", "a;b#k")."""
+    rnd = random.Random(seed)
+    cases = []
+    for _ in range(n):
+        nq = rnd.randint(5, 7)
+        perm = [0, 1, 2, 3] + rnd.sample(range(4, len(TWIN_POOL)), nq - 4)
+        if rnd.random() < 0.3:
+            perm[1], perm[2] = perm[2], perm[1]
+        calls = [["add_start_state", "q0"], ["add_transition", "q0", "a", "q1"], ["add_transition", "q0", "b", "q2"]]
+        for i in [1] + list(range(3, nq)):
+            for a in ("a", "b"):
+                if rnd.random() < 0.85:
+                    t = rnd.randrange(nq)
+                    calls.append(["add_transition", "q%d" % i, a, "q%d" % t])
+                    if i == 1:
+                        calls.append(["add_transition", "q2", a, "q%d" % t])
+        for i in [1] + list(range(3, nq)):
+            if rnd.random() < 0.4:
+                calls.append(["add_final_state", "q%d" % i])
+                if i == 1:
+                    calls.append(["add_final_state", "q2"])
+        other = list(calls) + [["add_final_state", "q%d" % rnd.randrange(nq)]]
+        cases.append(dict(kindA="dfa", kindB="dfa", callsA=calls, callsB=other, spool="twin", ypool="ab", permA=perm,
+                          permB=perm, family="twin-dfa-merged-names"))
+    return cases
+
+
+def use_merged_pool():
+    from harness import fa
+    fa.STATE_POOLS["merged"] = MERGED_POOL
+    fa.STATE_POOLS["twin"] = TWIN_POOL
+
+
 def pair_cases(tier, seed, work, stats, fams):
     cases = []
     for fam in fams:
@@ -126,6 +166,9 @@ def generate(tier, seed, work, stats):
     # P3: the calls the repository's own tests make, re-judged by the trace specification
     cases += [c for c in core.record_tests(["/repo/pyformlang"], work, {"is_equivalent_to", "minimize"}, stats) if "A" in c["recorded"][0]]
     cases += random_dfas(1500 if tier == "quick" else 30000, seed + 5)
+    for c in random_dfas(1200 if tier == "quick" else 20000, seed + 7):
+        cases.append(dict(c, spool="merged", family="random-dfa-merged-names"))
+    cases += twin_dfas(1500 if tier == "quick" else 20000, seed + 8)
     # step-level conformance of the Hopcroft refinement (TraceHopcroft): spec-generated DFAs and dense random ones
     states = core.tlc_dump("FAGen", c01.gen_cfg("dfa", 3, 4, 0, invariants=False, maxs=1, maxf=2), work, stats=stats, name="FAGen-dfa-q3-t4-steps")
     for i, st in enumerate(c01.sample(states, 8 if tier == "quick" else 1, seed)):
@@ -139,6 +182,7 @@ def generate(tier, seed, work, stats):
 
 def build_pair(case):
     from harness import fa
+    use_merged_pool()
     ca, ta = fa.concrete(case["callsA"], case["spool"], case["ypool"], case.get("permA"))
     cb, tb = fa.concrete(case["callsB"], case["spool"], case["ypool"], case.get("permB"))
     a, oa = fa.build(case["kindA"], ca)
